@@ -37,7 +37,10 @@ func AllAtoms() []*regexref.Atom {
 		text string
 		r    rune
 	}{{`\x61`, 'a'}, {`\x0061`, 'a'}, {`\x000061`, 'a'}, {`\x00000061`, 'a'}, {`\x09`, '\t'}, {`\x0A`, '\n'}, {`\x7F`, 0x7F}, {`\x01`, 1},
-		{`\xE9`, 0xE9}, {`\x00E9`, 0xE9}, {`\x0100`, 0x100}, {`\x4E00`, 0x4E00}, {`\x01F600`, 0x1F600}, {`\x0001F600`, 0x1F600}} {
+		{`\xE9`, 0xE9}, {`\x00E9`, 0xE9}, {`\x0100`, 0x100}, {`\x4E00`, 0x4E00}, {`\x01F600`, 0x1F600}, {`\x0001F600`, 0x1F600},
+		// code points an implementation may use for its own purposes (an end marker, a sentinel): private-use characters,
+		// non-characters, the replacement character, the last code point
+		{`\xEEEE`, 0xEEEE}, {`\xE000`, 0xE000}, {`\xF8FF`, 0xF8FF}, {`\xFFFD`, 0xFFFD}, {`\xFFFE`, 0xFFFE}, {`\xFFFF`, 0xFFFF}, {`\x0F0000`, 0xF0000}, {`\x10FFFF`, 0x10FFFF}} {
 		out = append(out, &regexref.Atom{Text: t.text, Set: regexref.Runes(t.r)})
 	}
 	// every spelling of a hexadecimal escape: 2 digits, and 4 to 8 digits with leading zeros, for code points chosen so
@@ -396,6 +399,39 @@ func OverlapSpace(quick bool, yield func(t *regexref.Expr, family string)) {
 		for _, y := range triples {
 			for _, z := range triples {
 				emit(x+y+z, "overlapping_classes_three_items")
+			}
+		}
+	}
+}
+
+// NestedQuantSpace yields a quantified group under a second quantifier, for every ordered pair of the non-lazy
+// quantifier forms (19 x 19) and, for the four basic ones, every lazy / greedy combination: `(a<q1>)<q2>` alone and
+// between two other characters, and `(ab<q1>)<q2>c`.
+func NestedQuantSpace(yield func(t *regexref.Expr, family string)) {
+	a, b, c := regexref.Lit('a'), regexref.Lit('b'), regexref.Lit('c')
+	var plain, basic []*regexref.Quant
+	for _, q := range regexref.AllQuants() {
+		if !q.Lazy {
+			plain = append(plain, q)
+		}
+		if q.Text == "?" || q.Text == "*" || q.Text == "+" || q.Text == "{1,2}" {
+			basic = append(basic, q)
+		}
+	}
+	emit := func(q1, q2 *regexref.Quant) {
+		yield(expr(sub(group(expr(sub(single(a, q1))), q2))), "nested_quantifiers")
+		yield(expr(sub(single(b, nil), group(expr(sub(single(a, q1))), q2), single(b, nil))), "nested_quantifiers")
+		yield(expr(sub(group(expr(sub(single(a, nil), single(b, q1))), q2), single(c, nil))), "nested_quantifiers")
+	}
+	for _, q1 := range plain {
+		for _, q2 := range plain {
+			emit(q1, q2)
+		}
+	}
+	for _, q1 := range basic {
+		for _, q2 := range basic {
+			if q1.Lazy || q2.Lazy {
+				emit(q1, q2)
 			}
 		}
 	}
